@@ -211,13 +211,21 @@ def check_buffer(acc, docs, nontrivial=True, sample=False, label=None):
                 # does every document pass on its own?
                 ok_alone = True
                 prev = None
+                inline = []
                 for d in docs:
                     a = alone(d, prev)
+                    inline.append(a)
                     if isinstance(d[2], (bytes, bytearray)):
                         prev = d[2]
-                    if run_buffer([a])[1] != "ok":
+                    k1 = run_buffer([a])[1]
+                    if k1 != "ok" and not ((k1 == "reserialised_bytes_differ" or k1.startswith("exception_serialise")) and c14_attributable([a])):
                         ok_alone = False
                 preds.append("each_document_passes_alone" if ok_alone else "some_document_fails_alone")
+                if any(d[2] == R.INHERIT for d in docs):
+                    # the same buffer with every inherited table written inline: does only the inherit marker matter?
+                    k2 = run_buffer(inline)[1]
+                    passes = k2 == "ok" or ((k2 == "reserialised_bytes_differ" or k2.startswith("exception_serialise")) and c14_attributable(inline))
+                    preds.append("passes_with_tables_inline" if passes else "fails_also_with_tables_inline")
             sig = kind + ("[" + "+".join(preds) + "]" if preds else "")
             acc.violation(sig, case, detail)
             outcome = kind.split(":")[0]
@@ -472,8 +480,29 @@ def lookup_cases():
     return cases
 
 
-def lookup_one(case):
-    """-> (outcome, detail); runs in whatever process calls it"""
+def fits(kind, flen, value):
+    """is `value` a value of this token kind (a by-name lookup may return another variant of the element)"""
+    if kind == R.OPAQUE:
+        return isinstance(value, bytes) and (flen is None or len(value) == flen)
+    if kind in (R.UINTVAR, R.UINT8):
+        return isinstance(value, int) and not isinstance(value, bool) and (kind == R.UINTVAR or value < 256)
+    if kind == R.UFLOAT:
+        return isinstance(value, float) and value >= 0
+    if kind == R.SFLOAT:
+        return isinstance(value, float)
+    if kind == R.NONE:
+        return value is None
+    if kind == R.INFOTIME:
+        return isinstance(value, bytes) and len(value) == 5
+    if kind in (R.CIRCLE2D, R.POINT3D):
+        return isinstance(value, tuple) and len(value) == 3
+    if kind == R.POINT2D:
+        return isinstance(value, tuple) and len(value) == 2
+    return False
+
+
+def lookup_stage1(case):
+    """get_token + as_bytes -> ("token", tid, carried attribute values, octets) | (outcome, detail)"""
     is_request, doc_id, key, value, attrs = case
     member = [m for m in MBXMLDocumentIdentifier if m.value[0] == doc_id][0]
     try:
@@ -485,11 +514,29 @@ def lookup_one(case):
         return "exception_lookup:" + exc_sig(e), repr(e)
     try:
         tid = tok.token_id
+        entry = R.table_for(doc_id).get(tid)
+        if entry is None:
+            return "lookup_returned_token_outside_transcription", hex(tid)
+        if entry[1] not in R.IMPLEMENTED_KINDS:
+            return "lookup_returned_unimplemented_kind", hex(tid)
+        if not fits(entry[1], entry[2], value):
+            return "lookup_returned_other_variant_of_the_name", hex(tid)
+        missing = [a for a in entry[3] if R.ATTRIBUTES[a][1] and a not in attrs and R.ATTRIBUTES[a][0] not in attrs]
+        if missing:
+            # a by-name lookup returned a variant whose value-carrying attribute the caller did not supply: the
+            # token is incomplete (its octets lack the attribute value), not a document the tables allow
+            return "lookup_returned_token_missing_value_attribute", hex(tid)
         want_attrs = [a.value for a in tok.attributes if isinstance(a, MBXMLToken)]
         doc.parts.append(tok)
         b = MBXML.as_bytes(doc)
     except Exception as e:
         return "exception_serialise:" + exc_sig(e), repr(e)
+    return "token", tid, want_attrs, bytes(b)
+
+
+def lookup_stage2(arg):
+    """from_bytes + comparison + second as_bytes on the octets of stage 1"""
+    doc_id, value, tid, want_attrs, b = arg
     try:
         back = MBXML.from_bytes(b)
     except Exception as e:
@@ -499,8 +546,8 @@ def lookup_one(case):
     p = back[0].parts[0]
     if p.token_id != tid:
         return "token_id_differs", f"{b.hex()}: {p.token_id:#x} != {tid:#x}"
-    kind = R.table_for(doc_id).get(tid, (None, None, None, None))[1]
-    if kind != R.NONE and not (kind == R.OPAQUE and R.table_for(doc_id)[tid][2] == 0):
+    name, kind, flen, attr_ids = R.table_for(doc_id)[tid]
+    if kind != R.NONE and not (kind == R.OPAQUE and flen == 0):
         if p.value != value:
             return "value_differs", f"{b.hex()}: {p.value!r} != {value!r}"
     got_attrs = [a.value for a in p.attributes if isinstance(a, MBXMLToken)]
@@ -512,6 +559,22 @@ def lookup_one(case):
     except Exception as e:
         return "exception_serialise_again:" + exc_sig(e), repr(e)
     return "ok", hex(tid)
+
+
+def lookup_same_process(case):
+    r = lookup_stage1(case)
+    if r[0] != "token":
+        return r[0]
+    return lookup_stage2((case[1], case[3], r[1], r[2], r[3]))[0]
+
+
+def lookup_split(case):
+    """stage 1 and stage 2 each in its own forked child of the (pristine) caller: what get_token does to
+    interpreter-global tables (C19's subject) cannot influence the parse"""
+    r = isolated(lookup_stage1, case)
+    if r[0] != "token":
+        return r[0], (r[1] if len(r) > 1 else "")
+    return isolated(lookup_stage2, (case[1], case[3], r[1], r[2], r[3]))
 
 
 def isolated(func, arg):
@@ -765,7 +828,8 @@ def run(only=None):
                                     "a document that inherited its table is not written back with the inherit marker")
             except Exception as e:
                 outcome = "exception"
-                s.violation("exception_inherit:" + exc_sig(e), case, repr(e))
+                s.violation("inherit_marker_document_misparsed", {**case, "detail": repr(e)},
+                            "a document whose cdt_len is 1 (table inherited) does not parse into the written tokens")
             s.case(nontrivial=True, calls=3, outcome=outcome, sample=case if (a, b, n) == (4, 6, 3) and t == BASE_CDT else None)
         s.done()
 
@@ -775,17 +839,18 @@ def run(only=None):
         s = rep.sub("token_lookup_api",
                     "request (id 0x05) and report (id 0x07) families: every implemented token looked up by id and by name x value alphabet x "
                     "every complete attribute assignment (value-carrying attributes supplied with 0/5/127/300, implied attributes left out or "
-                    "supplied with the implied value; keys by id or by name); each in a forked child of a pristine process; then all again "
-                    "in one long-lived process (history dependence is C19's subject and only counted here)")
+                    "supplied with the implied value; keys by id or by name); get_token+as_bytes in one forked child of a pristine process, "
+                    "from_bytes+comparison in another; the same again with both stages in one process and in one long-lived process "
+                    "(what get_token leaves behind in interpreter-global tables is C19's subject: differences are counted, not reported)")
         s.declared = len(cases)
 
         def w(task):
             acc = Acc()
             res = []
             for c in cases[task[0]:task[1]]:
-                outcome, detail = isolated(lookup_one, c)
+                outcome, detail = lookup_split(c)
                 res.append(outcome)
-                if outcome not in ("ok", "lookup_refused"):
+                if outcome != "ok" and not outcome.startswith("lookup_re"):
                     preds = lookup_preds(c)
                     acc.violation(outcome + ("[" + "+".join(preds) + "]" if preds else ""),
                                   {"kind": "lookup", "is_request": c[0], "document_id": c[1], "key": c[2], "value": c[3], "attributes": [[k, v] for k, v in c[4].items()], "detail": detail},
@@ -799,15 +864,21 @@ def run(only=None):
             s.merge(acc)
             iso += res
 
+        def same_process_each(task):
+            return [isolated(lookup_same_process, c) for c in cases[task[0]:task[1]]]
+
+        sp = [o for chunk in par.pmap(same_process_each, par.chunks(len(cases), 64), nw) for o in chunk]
+        s.extra["outcome_differs_when_lookup_and_parse_share_a_process(C19)"] = sum(1 for a, b in zip(iso, sp) if a != b)
+
         def longlived(_):
-            return [lookup_one(c)[0] for c in cases]
+            return [lookup_same_process(c) for c in cases]
 
         ll = isolated(longlived, None)
         if isinstance(ll, list) and len(ll) == len(iso):
-            s.extra["history_dependent_outcomes_in_one_process(C19)"] = sum(1 for a, b in zip(iso, ll) if a != b)
+            s.extra["outcome_differs_in_one_long_lived_process(C19)"] = sum(1 for a, b in zip(iso, ll) if a != b)
         else:
-            s.extra["history_dependent_outcomes_in_one_process(C19)"] = f"long-lived run failed: {ll!r}"[:200]
-        s.extra["successful_lookups"] = sum(1 for o in iso if o != "lookup_refused")
+            s.extra["outcome_differs_in_one_long_lived_process(C19)"] = f"long-lived run failed: {ll!r}"[:200]
+        s.extra["tokens_obtained"] = sum(1 for o in iso if not o.startswith("lookup_re"))
         if not any(o == "ok" for o in iso):
             rep.internal_error("token_lookup_api: no lookup produced a token that round-trips (vacuous)")
         s.done()
@@ -844,9 +915,9 @@ def replay(doc):
             bad += kind != "ok" and not c14_attributable(docs)
         elif c.get("kind") == "lookup":
             case = (c["is_request"], c["document_id"], c["key"], _revive(c["value"]), {k: v for k, v in c["attributes"]})
-            outcome, detail = isolated(lookup_one, case)
+            outcome, detail = lookup_split(case)
             print(f"lookup {case[2]!r} {case[4]!r}: {outcome} {detail}")
-            bad += outcome not in ("ok", "lookup_refused")
+            bad += outcome != "ok" and not outcome.startswith("lookup_re")
         else:
             print("cannot replay", c)
     return 1 if bad else 0
